@@ -25,8 +25,8 @@ Section NoPanic.
   Proof.
     intros I K Hc. unfold run_node_sync. destruct (w_ctl w) as [m|] eqn:Em; [|split; [exact K|cbn; discriminate]].
     pose proof (wi_ctl w I m Em) as M. pose proof (K m Em) as HK.
-    pose proof (sync_node_no_panic po lab (can_patch w key) (api_same w key) (held_cidrs (w_ncache w)) m cached (find_node key (w_ncache w)) outs M HK) as Hnp.
-    destruct (sync_node po lab (can_patch w key) (api_same w key) (held_cidrs (w_ncache w)) m cached (find_node key (w_ncache w)) outs)
+    pose proof (sync_node_no_panic po lab (svc_list (w_svc w)) (can_patch w key) (api_same w key) (held_cidrs (w_ncache w)) m cached (find_node key (w_ncache w)) outs M HK) as Hnp.
+    destruct (sync_node po lab (svc_list (w_svc w)) (can_patch w key) (api_same w key) (held_cidrs (w_ncache w)) m cached (find_node key (w_ncache w)) outs)
       as [[m' r] fx] eqn:Es. cbn [fst snd] in *.
     split.
     - intros m0 E0. rewrite apply_effects_ctl in E0. unfold after_call in E0. destruct r; try contradiction; cbn in E0; inversion E0; subst;
@@ -54,8 +54,8 @@ Section NoPanic.
     - destruct (w_ctl w) eqn:Em; cbn; (split; [|cbv; discriminate]); intros m0 E0; cbn in E0; apply K; congruence.
     - destruct (w_ctl w) eqn:Em; cbn; (split; [|cbv; discriminate]); intros m0 E0; cbn in E0; apply K; congruence.
     - destruct (w_ctl w) as [m|] eqn:Em; [|cbn; split; [intros m0 E0; cbn in E0; congruence|cbv; discriminate]].
-      pose proof (release_cidr_no_panic m n) as Hnp.
-      destruct (release_cidr m n) as [m' r] eqn:Er. cbn [snd] in Hnp.
+      pose proof (release_cidr_no_panic (svc_list (w_svc w)) m n) as Hnp.
+      destruct (release_cidr (svc_list (w_svc w)) m n) as [m' r] eqn:Er. cbn [snd] in Hnp.
       destruct r; try contradiction; cbn; (split; [|discriminate]); intros m0 E0; inversion E0; subst;
         (eapply shape_KU; [symmetry; eapply release_cidr_shape; exact Er|exact (K m Em)]).
   Qed.
@@ -102,7 +102,7 @@ Section NoPanic.
     - destruct (w_synced w); [|split; [exact K|cbn; discriminate]]. split; [|cbn; discriminate]. cbn [fst]. apply deliver_all_c_wk. apply Hsame. reflexivity.
     - destruct (find (fun x => fst x =? w0) (w_nfetch w)) as [[wk [key cached]]|] eqn:Ef; [|split; [exact K|cbn; discriminate]].
       apply run_node_sync_ok.
-      + pose proof I as I0. destruct I as [a1 b1 c1 d1 e1 f1 g1 h1 i1]. constructor; cbn; try assumption.
+      + pose proof I as I0. destruct I as [a1 b1 c1 d1 e1 f1 g1 h1 i1 j1]. constructor; cbn; try assumption.
         intros wk' k n Hi. apply filter_In in Hi. destruct Hi as [Hi _]. eapply g1. exact Hi.
       + apply Hsame. reflexivity.
       + intros n E. subst cached. apply find_some in Ef. destruct Ef as [Hin _]. eapply (wi_nfetch w I). exact Hin.
